@@ -343,8 +343,8 @@ int main(int argc, char **argv) {
     enclosure_phase(1, true); enclosure_phase(2, true); enclosure_phase(2, false);
     g_allowOverlap = true; enclosure_phase(1, true); enclosure_phase(2, true); enclosure_phase(2, false); inside_overlap_phase(true, T ? 1 : 3); if (T) inside_overlap_phase(false, 1); g_allowOverlap = false;
     for (int b : {2, 1}) { g_buf = b; phase(2, 1, 1, false, true, 1, 1); phase(2, 1, 2, false, true, 1, 1); if (T) phase(2, 1, 3, false, true, 1, 2); } g_buf = 0;
-    grid_phase(3, false, 0); grid_phase(3, false, 1); grid_phase(3, false, 100); grid_phase(3, true, 0); grid_phase(3, false, 200); bar_block_phase(5, 3); inside_phase(7, true);
-    if (T) { inside_phase(7, false); inside_phase(8, true); bar_block_phase(5, 1); bar_block_phase(6, 2); grid_phase(3, false, 201); grid_phase(4, false, 200); grid_phase(3, false, 101); grid_phase(3, true, 100); for (int e = 0; e < 6; e++) { grid_phase(4, false, e); grid_phase(3, true, e); } grid_phase(4, true, 0); grid_phase(4, true, 2); }
+    grid_phase(3, false, 0); grid_phase(3, false, 1); grid_phase(3, false, 100); grid_phase(3, true, 0); grid_phase(3, false, 200); grid_phase(3, false, 201); bar_block_phase(5, 3); inside_phase(7, true);   // (201: ... and every rectangle ADDED, which is the only single edit that can strictly cover an existing free endpoint)
+    if (T) { inside_phase(7, false); inside_phase(8, true); bar_block_phase(5, 1); bar_block_phase(6, 2); grid_phase(4, false, 200); grid_phase(3, false, 101); grid_phase(3, true, 100); for (int e = 0; e < 6; e++) { grid_phase(4, false, e); grid_phase(3, true, e); } grid_phase(4, true, 0); grid_phase(4, true, 2); }
     if (T) enclosure_phase(3, true);
     if (T) for (int ortho = 0; ortho < 2; ortho++) { phase(2, 1, 2, ortho, false, 1, 1, true); phase(2, 1, 3, ortho, true, 3, 2, true); phase(3, 2, 2, ortho, true, 2, 2, true); }
     g_pins = false;
